@@ -727,7 +727,18 @@ func checkInterruptCleaners(c *Ctx) {
 	c.Check(bad == "", "R19.8", "interrupt.clean:calls-every-enabled-cleaner", pos, "every registered cleaner that is not disabled is called; the loop ends by exhaustion only", bad)
 	// the signal goroutine
 	okSig := false
-	for _, an := range reg.AnonFuncs {
+	// the signal watcher: a closure of RegisterCleaner, or a function of the package it starts with `go`
+	watchers := append([]*ssa.Function{}, reg.AnonFuncs...)
+	for _, b := range reg.Blocks {
+		for _, ins := range b.Instrs {
+			if g, isGo := ins.(*ssa.Go); isGo {
+				if callee := g.Common().StaticCallee(); callee != nil && len(callee.Blocks) > 0 {
+					watchers = append(watchers, callee)
+				}
+			}
+		}
+	}
+	for _, an := range watchers {
 		var cl, ex ssa.Instruction
 		for _, k := range Calls(an) {
 			if k.Name == "util/interrupt.clean" {
@@ -762,7 +773,6 @@ func checkInterruptCleaners(c *Ctx) {
 	}
 	c.Check(okReg, "R19.8", "execenv.LoadBackend:registers-the-closer", "commands/execenv", "a cleaner closing the backend is registered", "LoadBackend registers no interrupt cleaner that closes the backend")
 }
-
 
 // funcValuesOf: the functions a func-typed value may be: closures, named functions, and what a
 // statically called helper returns.
